@@ -302,7 +302,7 @@ func ruleProv(w *World, r *Report, pkg *ssa.Package, tag string, fields map[stri
 			}
 		}
 	}
-	if n < 8 {
+	if n < len(fields)+1 {
 		r.Bad(rule, tag+":instance-floor", "-", fmt.Sprintf("only %d hunk field stores found in diff functions", n))
 	}
 }
@@ -331,8 +331,18 @@ func ruleNoEmpty(w *World, r *Report, pkg *ssa.Package, tag string, fRemove, fAd
 				if !ok {
 					continue
 				}
-				if innermostLoop(lps, fs.st.Block()) != nil {
-					grown[a] = true
+				if innermostLoop(lps, fs.st.Block()) == nil {
+					continue
+				}
+				// accumulation: field = append(field, ...)
+				if c, ok := strip(fs.st.Val).(*ssa.Call); ok {
+					if bb, ok := c.Call.Value.(*ssa.Builtin); ok && bb.Name() == "append" {
+						if ld, ok := strip(c.Call.Args[0]).(*ssa.UnOp); ok && ld.Op == token.MUL {
+							if bfa, ok := ld.X.(*ssa.FieldAddr); ok && bfa.X == ssa.Value(a) && bfa.Field == fs.addr.Field {
+								grown[a] = true
+							}
+						}
+					}
 				}
 			}
 		}
@@ -830,4 +840,173 @@ func isEmptySlice(v ssa.Value) bool {
 		}
 	}
 	return false
+}
+
+// ---------------------------------------------------------------- C06: R-LCSDEP, R-CTX1
+
+// oneElemSlice: v is a slice literal with exactly one element (possibly the
+// result of a local closure all of whose returns are such literals).
+func oneElemSlice(v ssa.Value, depth int) bool {
+	v = strip(v)
+	switch x := v.(type) {
+	case *ssa.Slice:
+		if a, ok := x.X.(*ssa.Alloc); ok && x.Low == nil && x.High == nil {
+			if arr, ok := a.Type().(*types.Pointer).Elem().Underlying().(*types.Array); ok {
+				return arr.Len() == 1
+			}
+		}
+	case *ssa.Call:
+		if sf := staticCallee(x); sf != nil && sf.Parent() != nil && depth < 2 {
+			rets := returnsOf(sf)
+			if len(rets) == 0 {
+				return false
+			}
+			for _, ret := range rets {
+				if len(ret.Results) != 1 || !oneElemSlice(ret.Results[0], depth+1) {
+					return false
+				}
+			}
+			return true
+		}
+	case *ssa.Phi:
+		for _, e := range x.Edges {
+			if !oneElemSlice(e, depth+1) {
+				return false
+			}
+		}
+		return true
+	}
+	return false
+}
+
+func paramByName(fn *ssa.Function, name string) *ssa.Parameter {
+	for _, p := range fn.Params {
+		if p.Name() == name {
+			return p
+		}
+	}
+	return nil
+}
+
+// ruleListDiff: structural necessary conditions of a minimal list diff with
+// one line of context on each side.
+func ruleListDiff(w *World, r *Report, pkg *ssa.Package) {
+	fnDiff := w.Method(pkg, "jsonList", "diff")
+	fnRest := w.Method(pkg, "jsonList", "diffRest")
+	r.Fn(fnName(fnDiff))
+	r.Fn(fnName(fnRest))
+	h := newHunkType(pkg)
+	// R-LCSDEP
+	{
+		const rule = "R-LCSDEP"
+		d := NewDeriv(w, fnDiff)
+		recv, other := fnDiff.Params[0], fnDiff.Params[1]
+		var call *ssa.Call
+		allInstrs(fnDiff, func(in ssa.Instruction) {
+			if c, ok := in.(*ssa.Call); ok && staticCallee(c) == fnRest {
+				call = c
+			}
+		})
+		if call == nil {
+			r.Bad(rule, fnName(fnDiff)+"→diffRest", w.Pos(fnDiff.Pos()), "the list diff no longer hands its work to diffRest")
+		} else {
+			slot := func(name string) ssa.Value {
+				for i, p := range fnRest.Params {
+					if p.Name() == name && i < len(call.Call.Args) {
+						return call.Call.Args[i]
+					}
+				}
+				return nil
+			}
+			pos := w.Pos(call.Pos())
+			cs, ah, bh := slot("commonSequence"), slot("aHashes"), slot("bHashes")
+			if cs == nil || ah == nil || bh == nil {
+				r.Unk(rule, fnName(fnDiff)+":slots", pos, "diffRest has no parameters named commonSequence / aHashes / bHashes")
+			} else {
+				rc := d.Roots(cs)
+				r.Check(rc[recv] && rc[other], rule, fnName(fnDiff)+":common-sequence-depends-on-both-sides", pos,
+					"the common subsequence handed to the hunk walk is computed from the hash sequences of both arrays",
+					"the common subsequence handed to the hunk walk does not depend on both arrays: it cannot be a longest common subsequence, so the diff is not minimal (or replaces the whole array)")
+				ra, rb := d.Roots(ah), d.Roots(bh)
+				r.Check(ra[recv] && !ra[other] && rb[other] && !rb[recv], rule, fnName(fnDiff)+":hash-sequences-per-side", pos,
+					"aHashes is built from the receiver's elements only, bHashes from the argument's elements only",
+					"the per-side hash sequences are mixed up or built from the wrong array")
+				// both hash sequences are made of element hashCodes
+				okH := true
+				for _, hv := range []ssa.Value{ah, bh} {
+					has := false
+					for v := range d.Visited(hv) {
+						if c, ok := v.(*ssa.Call); ok && isHashCodeCall(c) {
+							has = true
+						}
+					}
+					okH = okH && has
+				}
+				r.Check(okH, rule, fnName(fnDiff)+":hash-sequences-are-element-hashes", pos, "both sequences consist of the elements' hashCodes", "a hash sequence is not built from the elements' hashCodes")
+			}
+		}
+		// recursion: each slot is re-sliced from the function's own parameter
+		dr := NewDeriv(w, fnRest)
+		n := 0
+		allInstrs(fnRest, func(in ssa.Instruction) {
+			c, ok := in.(*ssa.Call)
+			if !ok || staticCallee(c) != fnRest {
+				return
+			}
+			n++
+			for i, p := range fnRest.Params {
+				switch p.Name() {
+				case "aHashes", "bHashes", "commonSequence", "b", "options", "strategy":
+					roots := dr.Roots(c.Call.Args[i])
+					r.Check(roots[p], rule, fmt.Sprintf("%s→diffRest[%s]", fnName(fnRest), p.Name()), w.Pos(c.Pos()),
+						"the continuation of the walk receives the rest of the caller's own "+p.Name(),
+						"the continuation of the walk does not receive the caller's own "+p.Name())
+				}
+			}
+		})
+		if n == 0 {
+			r.Bad(rule, fnName(fnRest)+":continuation", w.Pos(fnRest.Pos()), "diffRest no longer continues the walk behind a hunk")
+		}
+		// same-kind containers at the same position are diffed recursively, under sameContainerType
+		okRec := false
+		withClosures(fnRest, func(f *ssa.Function) {
+			allInstrs(f, func(in ssa.Instruction) {
+				c, ok := in.(*ssa.Call)
+				if !ok || !c.Call.IsInvoke() || c.Call.Method.Name() != "diff" {
+					return
+				}
+				for _, b := range f.Blocks {
+					cond, tE, _, okb := branchEdges(b)
+					if !okb {
+						continue
+					}
+					cc, isC := cond.(*ssa.Call)
+					if !isC {
+						continue
+					}
+					if sf := staticCallee(cc); sf != nil && sf.Name() == "sameContainerType" && edgeDominatesOrSame(tE, c.Block()) {
+						okRec = true
+					}
+				}
+			})
+		})
+		r.Check(okRec, rule, fnName(fnRest)+":same-kind-recursion", w.Pos(fnRest.Pos()), "containers of the same kind at the same position are diffed recursively (on the sameContainerType-true edge)",
+			"same-position containers are no longer diffed recursively: they are replaced wholesale")
+	}
+	// R-CTX1
+	{
+		const rule = "R-CTX1"
+		n := 0
+		for _, f := range []string{"Before", "After"} {
+			for i, fs := range h.fieldStores(fnRest, f) {
+				n++
+				key := fmt.Sprintf("%s:%s-store#%d", fnName(fnRest), f, i+1)
+				r.Check(oneElemSlice(fs.st.Val, 0), rule, key, w.Pos(fs.st.Pos()), "exactly one line of "+strings.ToLower(f)+" context is recorded",
+					"the "+strings.ToLower(f)+" context stored in a list hunk is not a one-element list")
+			}
+		}
+		if n < 3 {
+			r.Bad(rule, fnName(fnRest)+":instance-floor", w.Pos(fnRest.Pos()), fmt.Sprintf("only %d context stores found in the list diff", n))
+		}
+	}
 }
